@@ -92,6 +92,9 @@ pub struct Ctx {
     /// per-class violation counts (to avoid storing thousands of duplicates)
     pub class_counts: BTreeMap<String, u64>,
     pub max_per_class: u64,
+    /// set by an oracle that has just reported a violation whose continuations need not be explored (e.g. a bound on the
+    /// number of attempts is already exceeded): the explorer does not expand the children of that execution
+    pub prune_children: bool,
 }
 
 impl Ctx {
@@ -111,6 +114,7 @@ impl Ctx {
             max_samples: 6,
             class_counts: BTreeMap::new(),
             max_per_class: 3,
+            prune_children: false,
         }
     }
 
